@@ -368,7 +368,12 @@ func runC22Writer(s *simrt.Sim, nofault bool) {
 		sink.FailAt, sink.Err = tp.Draw(3000, "sink_fail.at"), simio.ErrInjected
 	}
 	size := []int{16, 64, 4096}[tp.Draw(3, "buf.size")]
-	w := NewWriterSize(sink, size)
+	var under io.Writer = sink
+	if tp.Chance(1, 2, "sink_readerfrom") {
+		under = simio.RFWriter{Writer: sink} // an underlying writer with ReadFrom (net.TCPConn-like)
+		s.Probe("sink_readerfrom")
+	}
+	w := NewWriterSize(under, size)
 	var want []byte // bytes accepted so far
 	nops := tp.Range(1, 50, "n_ops")
 	var log []string
